@@ -12,7 +12,7 @@ SUITES.append(Suite("prio1-det", prio.prio1_generate_with_witness(prio.d4_gracef
 SUITES.append(Suite("simple2", prio.simple2_generate(), prio.simple2_project, prio.monitor_simple2("C07"),
                     rule=prio.SIMPLE2_RULE, version="v2", impl_ints=False, batch_timeout=300))
 
-SUITES.append(Suite("simple1", prio.simple1_generate(["graceful", "double-graceful"]), prio.simple1_project, prio.monitor_simple1("C07"),
+SUITES.append(Suite("simple1", prio.simple1_generate(["graceful", "graceful", "double-graceful", "stop-during-graceful"]), prio.simple1_project, prio.monitor_simple1("C07"),
                     rule=prio.SIMPLE1_RULE, version="v1", impl_ints=False, batch_timeout=120, variants=prio.simple1_variants))
 ASSUMPTIONS = [
     "model: the scheduling goroutine as a program-counter machine (Prio2.sched_step) over FIFO-list channels; the driver of Prio2Sim.v "
